@@ -102,7 +102,7 @@ def run_one(s):
         t = heap[op["t"] - 1]
         u = heap[op["u"] - 1] if op["u"] else None
         if t is None or (op["u"] and u is None):      # operand is the result of a call that failed earlier
-            if a not in ("set", "eq", "space") and len(heap) < 9:
+            if a not in ("set", "eq", "space", "badcat") and len(heap) < 9:
                 heap.append(None)
             continue
         ins = [t] + ([u] if u is not None else [])
@@ -127,7 +127,7 @@ def run_one(s):
             r = watched(do)
         elif a == "join":
             r = watched(lambda: t.join(u))
-        elif a == "cat":
+        elif a in ("cat", "badcat"):
             r = watched(lambda: t | u)
         elif a == "repeat":
             r = watched(lambda: t.repeat(op["n"]))
@@ -147,12 +147,14 @@ def run_one(s):
             raise ValueError(a)
         if r[0] != "ok":
             e["exc"] = r[1] if len(r) > 1 else "hang"
-            if a not in ("set", "eq", "space") and len(heap) < 9:
+            if a not in ("set", "eq", "space", "badcat") and len(heap) < 9:
                 heap.append(None)
         elif a == "eq":
             e["eq"] = r[1]
         elif a == "space":
             e.update(r[1])
+        elif a == "badcat":
+            e["out"] = tab(r[1])
         elif a != "set":
             out = r[1]
             e["out"] = tab(out)
